@@ -416,6 +416,16 @@ def check_guard(ctx, res, ob: GuardOb, rule="R15.1", prop_res=None, _fi=None, _d
         bypass = g.path(g.entry, g.exit, avoid_edges=cut)
         ok = bypass is None
         why = "" if ok else "a normal path bypasses the guard: " + " -> ".join(g.path_text(bypass))
+        if not ok:
+            for nid_, _r, _a in good:
+                sr = _split_recheck(ctx, fi, g, nid_, ob)
+                if sr is not None and _loop_guard(ctx, fi, g, [(nid_, _r, _a)], cut, GuardOb(ob.fn, ob.label, ob.wording, loop=True))[0]:
+                    ok, why = True, ""
+                    split_note = sr
+                    break
+    if ok and not ob.loop and "split_note" in locals():
+        res.ob(rule, where, construct, True, split_note)
+        return True
     facts = "guard(s) %s on every normal path%s" % (
         ", ".join("`%s` (line %s)" % (txt(g.nodes[n].ast)[:40], getattr(g.nodes[n].ast, "lineno", "?")) for n, _, _ in good),
         "; reads the live tolerance" if ob.eps else "")
@@ -424,6 +434,129 @@ def check_guard(ctx, res, ob: GuardOb, rule="R15.1", prop_res=None, _fi=None, _d
         res.violation(rule, fi, g.nodes[good[0][0]].ast, "%s -- %s" % (ob.wording, why), construct=construct,
                       detail={"guards considered": [txt(g.nodes[n].ast) for n, _, _ in good]})
     return ok
+
+
+def _block_expand(stmts, e: ast.AST, skip=()) -> ast.AST:
+    """copy of e with the names assigned exactly once inside `stmts` (plain `x = expr`) replaced by their expressions"""
+    import copy as _copy
+    cnt: Dict[str, int] = {}
+    val: Dict[str, ast.AST] = {}
+    for st in stmts:
+        for n in ast.walk(st):
+            if isinstance(n, ast.Assign) and len(n.targets) == 1 and isinstance(n.targets[0], ast.Name):
+                cnt[n.targets[0].id] = cnt.get(n.targets[0].id, 0) + 1
+                val[n.targets[0].id] = n.value
+            elif isinstance(n, (ast.AugAssign, ast.For)) and isinstance(getattr(n, "target", None), ast.Name):
+                cnt[n.target.id] = cnt.get(n.target.id, 0) + 2
+    defs = {k: v for k, v in val.items() if cnt.get(k) == 1 and k not in skip}
+
+    class R(ast.NodeTransformer):
+        def __init__(self, d):
+            self.d = d
+
+        def visit_Name(self, n):
+            if isinstance(n.ctx, ast.Load) and n.id in defs and self.d > 0:
+                return R(self.d - 1).visit(_copy.deepcopy(defs[n.id]))
+            return n
+    return R(4).visit(_copy.deepcopy(e))
+
+
+def _split_recheck(ctx, fi, g, nid: int, ob) -> Optional[str]:
+    """The rejecting test sits in a loop over a local list L (so zero iterations bypass it), but L is exactly the list of
+    the elements for which the SAME predicate held in an earlier loop over the whole validated collection:
+
+        for x in C:                      # every element
+            if P(x):  y = T(x); ...; L.append(y)
+        for y in L:
+            if P(y):  raise
+
+    Every element either failed P in the first loop or is tested again in the second: P-violators are rejected.
+    Returns the justification, or None when the shape is different."""
+    node = g.nodes[nid]
+    if not node.loops:
+        return None
+    h2 = g.nodes[node.loops[-1]] if isinstance(node.loops, (list, tuple)) else None
+    if h2 is None or not isinstance(h2.ast, ast.For) or not isinstance(h2.ast.iter, ast.Name) or not isinstance(h2.ast.target, ast.Name):
+        return None
+    L = h2.ast.iter.id
+    if L in fi.params or not g.must_pass(g.entry, g.exit, through_nodes={h2.id}):
+        return None
+    par = {}
+    for n in ast.walk(fi.node):
+        for ch in ast.iter_child_nodes(n):
+            par[id(ch)] = n
+    inits, appends, other = [], [], []
+    for n in walk_local(fi.node):
+        if isinstance(n, ast.Assign) and any(isinstance(t, ast.Name) and t.id == L for t in n.targets):
+            (inits if isinstance(n.value, ast.List) and not n.value.elts else other).append(n)
+        elif isinstance(n, ast.Call) and isinstance(n.func, ast.Attribute) and isinstance(n.func.value, ast.Name) and n.func.value.id == L:
+            if n.func.attr == "append" and len(n.args) == 1:
+                appends.append(n)
+            elif n.func.attr not in ("__len__", "copy", "index", "count"):
+                other.append(n)
+        elif isinstance(n, (ast.AugAssign,)) and isinstance(n.target, ast.Name) and n.target.id == L:
+            other.append(n)
+    if len(inits) != 1 or not appends or other:
+        return None
+    guard_e = g.nodes[nid].ast
+    p2 = txt(_subst_name(_block_expand(h2.ast.body, guard_e, skip=(h2.ast.target.id,)), h2.ast.target.id, "ELEMENT"))
+    for ap in appends:
+        # the enclosing if (then-branch) and the enclosing loop over the validated collection
+        cur = ap
+        cif = None
+        h1 = None
+        while id(cur) in par:
+            up = par[id(cur)]
+            if isinstance(up, ast.If) and cif is None and any(cur is b or any(cur is z for z in ast.walk(b)) for b in up.body):
+                cif = up
+            if isinstance(up, ast.For):
+                h1 = up
+                break
+            cur = up
+        if cif is None or h1 is None or h1 is h2.ast:
+            return None
+        h1n = [n for n in g.nodes.values() if n.kind == "loop" and n.ast is h1]
+        if not h1n or not g.must_pass(g.entry, h2.id, through_nodes={h1n[0].id}):
+            return None
+        itdeps = cond_deps(ctx, fi, h1.iter)
+        colls = {x for x in ob.inputs_all | ob.inputs_any if x in itdeps}
+        if not colls:
+            return None
+        # the element of the first loop: its target, or the local read from C[i]
+        elem = None
+        if isinstance(h1.target, ast.Name):
+            it_t = txt(h1.iter)
+            if it_t.startswith("range(len("):
+                for st in h1.body:
+                    if isinstance(st, ast.Assign) and len(st.targets) == 1 and isinstance(st.targets[0], ast.Name) \
+                            and isinstance(st.value, ast.Subscript) and isinstance(st.value.slice, ast.Name) and st.value.slice.id == h1.target.id:
+                        elem = st.targets[0].id
+            else:
+                elem = h1.target.id
+        elif isinstance(h1.target, ast.Tuple) and len(h1.target.elts) == 2 and isinstance(h1.target.elts[1], ast.Name) \
+                and txt(h1.iter).startswith("enumerate("):
+            elem = h1.target.elts[1].id
+        if elem is None:
+            return None
+        p1 = txt(_subst_name(_block_expand(h1.body, cif.test, skip=(elem,)), elem, "ELEMENT"))
+        if p1 != p2:
+            return None
+        # what is appended derives from the tested element
+        y = ap.args[0]
+        ydeps = {n.id for n in ast.walk(_block_expand(h1.body, y, skip=(elem,))) if isinstance(n, ast.Name)}
+        if elem not in ydeps:
+            return None
+    return ("`%s` collects exactly the elements of %s for which `%s` held; the loop at line %d tests each of them again and raises: "
+            "every element either failed the test or is re-tested" % (L, "/".join(sorted(colls)), txt(guard_e)[:50], h2.ast.lineno))
+
+
+def _subst_name(e: ast.AST, name: str, repl: str) -> ast.AST:
+    class R(ast.NodeTransformer):
+        def visit_Name(self, n):
+            if n.id == name:
+                return ast.copy_location(ast.Name(id=repl, ctx=n.ctx), n)
+            return n
+    return R().visit(e)
 
 
 def _loop_guard(ctx, fi, g, good, cut, ob) -> Tuple[bool, str]:
